@@ -227,7 +227,9 @@ impl BlockRead for RollingReader {
             crate::verif_hooks::io_call()?;
         }
         let success = read_block(&mut self.file, &mut self.block)?;
-        if success {
+        // Nothing is ever written beyond the nominal size of a wal file: if a file is longer,
+        // ignore the excess (the writer cannot resume from there, see `RollingWriter::write`).
+        if success && (self.block_id + 1) * BLOCK_NUM_BYTES < FILE_NUM_BYTES {
             self.block_id += 1;
             return Ok(true);
         }
